@@ -825,9 +825,14 @@ int cif_parse_internal(struct scanner_s *scanner, int not_utf8, const char *extr
 
                 if (scanner->cif_version == 1) {
                     if (scanned_bom) {
-                        /* error: disallowed CIF 1 character */
+                        /*
+                         * error: disallowed CIF 1 character.  The BOM may no longer be in the scan buffer, so a copy
+                         * is reported.
+                         */
+                        UChar bom = UCHAR_BOM;
+
                         FAILURE_VARIABLE = scanner->error_callback(CIF_DISALLOWED_CHAR, 1, 0,
-                                scanner->next_char - 1, 1, scanner->user_data);
+                                &bom, 1, scanner->user_data);
                         /* recover, if necessary, by ignoring the problem */
                     }
                     SET_V1(scanner);
